@@ -133,7 +133,7 @@ def perm_wrappers(facts):
             if x['k'] in CALL_KINDS and (x.get('cq') or '').startswith(Y + 'permutation::') and \
                     x.get('cn') not in ('get_body', 'permutation'):
                 r = g.strip(call_recv(g, x), casts=True) if call_recv(g, x) is not None else None
-                if r is not None and r['k'] == 'MemberExpr' and (r.get('name') == 'permutation_') and \
+                if r is not None and r['k'] == 'MemberExpr' and (r.get('name') == R.field_of(facts, Y + 'border_node', 'yakushima::permutation', 'permutation word')) and \
                         root_var(g, r) == 'this':
                     direct.add(g.fid)
     facts.__dict__['_perm_wrappers'] = direct
@@ -233,7 +233,7 @@ def rule_desc(S):
             if l is not None and l['k'] == 'DeclRefExpr' and (l.get('ty') or '') == 'yakushima::base_node *':
                 if R.const_of(f, f.ch(nd)[1]) == 'null':
                     return ('null', None, None, False, False, frozenset())
-                if any(x['k'] == 'MemberExpr' and x.get('name') == 'children' for x in f.walk(f.ch(nd)[1])):
+                if any(x['k'] == 'MemberExpr' and x.get('name') == R.field_of(facts, Y + 'interior_node', 'std::array<yakushima::base_node *', 'child array') for x in f.walk(f.ch(nd)[1])):
                     return (l['id'], None, None, False, False, frozenset())
         if is_call(nd, cq=occ.STABLE):
             rv = root_var(f, call_recv(f, nd))
@@ -300,9 +300,17 @@ def rule_desc(S):
     g = facts.one(Y + 'find_border')
     res = {}
 
+    child_vars = {v['id'] for n in g.all_nodes() if n['k'] == 'DeclStmt' for v in n.get('vars', [])
+                  if 'init' in v and any(is_call(x, cq=Y + 'interior_node::get_child_of') for x in g.walk(v['init']))}
+    restarts = {'seen': False, 'bad': None}
+
     def step2(ctx, nd, st):
-        border_known, fs = st
+        border_known, fs, nullchild = st
         fs = R.track_assign(g, nd, fs, facts)
+        if is_call(nd, cq=occ.STABLE) and nullchild:
+            # the descent starts over: a fresh stable version is taken (of the root)
+            restarts['seen'] = True
+            return (False, fs, False)
         if nd['k'] == 'ReturnStmt':
             t = term(g, g.ch(nd)[0]) if g.ch(nd) else None
             isnull = t is not None and t[0] == 'call' and t[3] and t[3][0] == ('null',)
@@ -311,33 +319,45 @@ def rule_desc(S):
             if not isnull and not border_known:
                 e['ok'] = False
                 e['path'] = ctx.witness()
+            if nullchild and not isnull and restarts['bad'] is None:
+                restarts['bad'] = ctx.witness()
             return None
-        return (border_known, fs)
+        return (border_known, fs, nullchild)
 
     def branch2(ctx, blk, idx, st):
-        border_known, fs = st
+        border_known, fs, nullchild = st
+        fs = R.refine(g, blk, idx, fs)
+        if fs is None:
+            return None
+        st = (border_known, fs, nullchild)
         if blk.term and 'cond' in blk.term and len(blk.succ) == 2:
             t = term(g, blk.term['cond'])
+            if t[0] == 'bin' and t[1] in ('==', '!=') and ('null',) in (t[2], t[3]):
+                o = t[2] if t[3] == ('null',) else t[3]
+                if o[0] == 'var' and any(vname(v) == o[1] for v in child_vars) and ((idx == 0) == (t[1] == '==')):
+                    return (border_known, fs, True)
             neg = False
             while t[0] == 'un' and t[1] == '!':
                 neg = not neg
                 t = t[2]
             if t[0] == 'call' and t[1] == occ.VB + 'get_border':
-                return (((idx == 0) != neg), fs)
+                return (((idx == 0) != neg), fs, nullchild)
             if t[0] == 'call' and t[1] == occ.VB + 'get_deleted' and ((idx == 0) != neg):
-                return (True, fs)   # deleted root: by construction a border (the empty root), the caller checks
+                return (True, fs, nullchild)   # deleted root: by construction a border (the empty root), the caller checks
         return st
 
-    Explorer(g, step2, branch2).run((False, frozenset()))
+    Explorer(g, step2, branch2).run((False, frozenset(), False))
     S.require('R-DESC', 'returns of find_border', len(res), 2)
     for site, e in sorted(res.items()):
         S.ob('R-DESC', g.qname, site, e['ok'], 'a node is returned as border only after its border flag (or the '
              'deleted-root case) was tested on the validated version' if e['ok'] else
              'find_border returns a node as border without having tested the border flag of its version',
              loc=e['loc'], path=e['path'])
-    restart = any(blk.term and blk.term.get('k') == 'GotoStmt' for blk in g.blocks.values())
-    S.ob('R-DESC', g.qname, 'restart on a null child', restart, 'goto retry present' if restart else
-         'find_border no longer restarts when get_child_of detects a structure change', loc=g.loc)
+    restart = restarts['seen'] and restarts['bad'] is None
+    S.ob('R-DESC', g.qname, 'restart on a null child', restart,
+         'after a null child every path takes a fresh stable version (starts over) before it can return a node' if restart
+         else 'find_border no longer restarts when get_child_of detects a structure change', loc=g.loc,
+         path=restarts['bad'])
 
 
 def run(S):
